@@ -59,7 +59,7 @@ func runChain(c *h.Ctx, cs chain.Case) {
 			}
 		}
 	}
-	if !r.R[9] {
+	if !r.R[9] && !d.Allowed {
 		// a store that fails ONE lookup (each lookup in turn, counted over the whole check, in each of the ways stores
 		// fail) and answers all others: whatever that does to the verdict, a chain holding an expired / not yet
 		// active token is not allowed
